@@ -215,14 +215,14 @@ Qed.
 Lemma tscript_of_char : forall s m,
   tscript_of s m =
   let '(k, code) := pscript_at s (Z.of_nat m) in
-  if k =? 0 then SStatus code else if k =? 2 then SBlock else if k =? 3 then SPanic
+  if is_status k then SStatus code else if k =? 2 then SBlock else if k =? 3 then SPanic
   else if (k =? 4) || (k =? 6) then SBodyErr else if k =? 5 then SBodyBlock else SErr.
 Proof.
   intros s m. rewrite pscript_at_nat. unfold tscript_of.
   destruct (nth_error s m) as [[k code]|]; [|reflexivity].
   destruct k as [|q|q]; try reflexivity.
   destruct q as [q|q|]; try reflexivity; destruct q as [q|q|]; try reflexivity;
-    destruct q; reflexivity.
+    destruct q as [q|q|]; try reflexivity; destruct q; reflexivity.
 Qed.
 
 Lemma ctx_done_cancel_of : forall c i,
@@ -247,23 +247,23 @@ Proof.
   unfold attempt_outcome in H. cbn [model_pool_rq rq_script rq_cancel pool_of pl_fcodes pl_timeout] in H.
   rewrite tscript_of_char in H. unfold pfailed. rewrite Hq.
   destruct (pscript_at script (Z.of_nat m)) as [k cd].
-  destruct (k =? 0); [destruct (zmem cd (k_fcodes c)); [reflexivity|discriminate]|].
+  destruct (is_status k); [destruct (zmem cd (k_fcodes c)); [reflexivity|discriminate]|].
   destruct (k =? 2) eqn:E2; [destruct (k =? 3) eqn:E3; [lia|reflexivity]|].
   destruct (k =? 3); [discriminate|reflexivity].
 Qed.
 
 (** what the client gets in the model satisfies the checker's clause *)
-Lemma visible_clause_model : forall pl rq n,
+Lemma visible_clause_model : forall pl rq n (sz : nat -> Z),
   let o := attempt_outcome pl rq (n - 1)%nat in
   let r := fst (presult_code (to_presult (Some o))) in
-  let v := visible_code (match o with
+  let v := visible_code sz (match o with
                          | ONil c | OErr c _ => if publishes (rq_script rq (n - 1)%nat)
                                                 then VBackend (n - 1) else VGateway c
                          | _ => VNothing end) in
-  (if (r =? 0) || (r =? 4) then (fst v =? Z.of_nat (n - 1)) && (snd v =? 2)
-   else if r <? 7 then (fst v =? -1) && (snd v =? 0) else true) = true.
+  (if (r =? 0) || (r =? 4) then (fst v =? Z.of_nat (n - 1)) && (snd v =? sz (n - 1)%nat)
+   else if r <? 7 then (fst v =? -1) && (snd v =? 0) && (0 =? 0) else true) = true.
 Proof.
-  intros pl rq n. cbv zeta. unfold attempt_outcome.
+  intros pl rq n sz. cbv zeta. unfold attempt_outcome.
   destruct (rq_script rq (n - 1)%nat) as [c| | | | |]; cbn [publishes];
     repeat match goal with |- context [if ?b then _ else _] =>
       match b with
@@ -286,7 +286,7 @@ Proof.
   cbn [model_pool_rq rq_script rq_cancel pool_of pl_fcodes pl_timeout].
   rewrite tscript_of_char, Hq, Hc, ctx_done_cancel_of.
   destruct (pscript_at script (Z.of_nat m)) as [k cd].
-  destruct (k =? 0) eqn:E0; [destruct (zmem cd (k_fcodes c)); reflexivity|].
+  destruct (is_status k) eqn:E0; [destruct (zmem cd (k_fcodes c)); reflexivity|].
   destruct (k =? 3) eqn:E3.
   - destruct (k =? 2) eqn:E2; [lia|reflexivity].
   - destruct (k =? 2) eqn:E2.
@@ -307,17 +307,18 @@ Proof. intros [r s| |] H; [destruct r; reflexivity|reflexivity|contradiction]. Q
 Lemma prop_req_sound : forall c (x : xs_t),
   (k_retry c = true -> valid (k_pol c)) ->
   po_result (pool_handle (pool_of c) true (model_pool_rq x)) <> PHang ->
-  prop_req c (model_pool_req (pool_of c) x) = true.
+  prop_req c (model_pool_req (pool_of c) (k_smax c) x) = true.
 Proof.
   intros c x Hv Hh. destruct x as [[[[stream script] cancel] draws] pick].
   unfold model_pool_req. fold (model_pool_rq (stream, script, cancel, draws, pick)).
+  set (sz := fun j : nat => bsize (k_smax c) script (Z.of_nat j)).
   set (rq := model_pool_rq (stream, script, cancel, draws, pick)) in *.
   set (pl := pool_of c) in *.
   destruct (pool_handle_permitted pl rq) as [Er Ea]. rewrite Er in Hh. rewrite Er, Ea.
   set (tr := handler_trace pl rq) in *. set (n := n_attempts tr) in *.
   set (h := attempt_outcome pl rq).
   unfold prop_req.
-  cbn [q_calls q_stream q_cancel q_res q_status q_gaps q_script q_from q_plen q_bodies].
+  cbn [q_calls q_stream q_cancel q_res q_status q_gaps q_script q_from q_plen q_bodies q_hdrs].
   rewrite pool_visible_permitted. fold tr. unfold visible_of. fold n.
   (* facts about the handler trace, by cases retried / not retried *)
   assert (F : (1 <= n)%nat /\
@@ -356,18 +357,19 @@ Proof.
     - specialize (F6 ltac:(lia) eq_refl ltac:(lia)). lia.
     - specialize (F7 eq_refl). lia. }
   rewrite F4. fold h.
-  pose proof (visible_clause_model pl rq n) as C9. cbv zeta in C9. fold h in C9.
+  pose proof (visible_clause_model pl rq n sz) as C9. cbv zeta in C9. fold h in C9.
   cbn [rq rq_script model_pool_rq] in C9.
-  set (vis := visible_code match h (n - 1)%nat with
+  set (vis := visible_code sz match h (n - 1)%nat with
                            | ONil c0 | OErr c0 _ =>
                                if publishes (tscript_of script (n - 1)) then VBackend (n - 1) else VGateway c0
                            | _ => VNothing end) in *.
   cbn [rq rq_script model_pool_rq].
-  change (visible_code match h (n - 1)%nat with
+  change (visible_code sz match h (n - 1)%nat with
                            | ONil c0 | OErr c0 _ =>
                                if publishes (tscript_of script (n - 1)) then VBackend (n - 1) else VGateway c0
                            | _ => VNothing end) with vis.
   set (q0 := {| q_stream := stream; q_script := script; q_cancel := cancel; q_clen := 0;
+                q_mutate := false; q_hdrs := 0; q_cbt := -1; q_cbf := -1;
                 q_calls := Z.of_nat n;
                 q_res := fst (presult_code (to_presult (Some (h (n - 1)%nat))));
                 q_status := snd (presult_code (to_presult (Some (h (n - 1)%nat))));
@@ -388,6 +390,7 @@ Proof.
       destruct (k_retry c); [reflexivity|discriminate].
     - rewrite (F7 eq_refl). reflexivity. }
   specialize (C3 q0 eq_refl).
+  change (sz (n - 1)%nat) with (bsize (k_smax c) script (Z.of_nat (n - 1))) in C9.
   fold q0. rewrite C1, C2, C3, C4, C5, C6, C7, C8, C9, Z.eqb_refl. reflexivity.
 Qed.
 
@@ -402,13 +405,13 @@ Proof. induction n as [|n IH]; [reflexivity|]. cbn [pall_failed_before]. rewrite
 Lemma prop_req_set_cum : forall c q a b, prop_req c (set_cum q a b) = prop_req c q.
 Proof. intros. unfold prop_req. rewrite pall_failed_set_cum. reflexivity. Qed.
 
-Lemma model_pool_reqs_length : forall pl xs t f, List.length (model_pool_reqs pl xs t f) = List.length xs.
-Proof. induction xs as [|x r IH]; intros t f; [reflexivity|]. cbn [model_pool_reqs List.length]. rewrite IH. reflexivity. Qed.
+Lemma model_pool_reqs_length : forall pl sm xs t f, List.length (model_pool_reqs pl sm xs t f) = List.length xs.
+Proof. intros pl sm. induction xs as [|x r IH]; intros t f; [reflexivity|]. cbn [model_pool_reqs List.length]. rewrite IH. reflexivity. Qed.
 
 Lemma model_pool_reqs_props : forall c (xs : list xs_t) t f,
   (k_retry c = true -> valid (k_pol c)) ->
   (forall x, In x xs -> po_result (pool_handle (pool_of c) true (model_pool_rq x)) <> PHang) ->
-  forallb (prop_req c) (model_pool_reqs (pool_of c) xs t f) = true.
+  forallb (prop_req c) (model_pool_reqs (pool_of c) (k_smax c) xs t f) = true.
 Proof.
   intros c xs. induction xs as [|x r IH]; intros t f Hv Hh; [reflexivity|].
   cbn [model_pool_reqs forallb]. rewrite prop_req_set_cum.
@@ -416,13 +419,13 @@ Proof.
   apply IH; [exact Hv|]. intros y Hy. apply Hh. right. exact Hy.
 Qed.
 
-Lemma model_pool_reqs_failed : forall pl (xs : list xs_t) t f,
+Lemma model_pool_reqs_failed : forall pl sm (xs : list xs_t) t f,
   List.length (filter (fun o => presult_failed (po_result o)) (pool_run pl (map model_pool_rq xs))) =
-  List.length (filter (fun q => negb (q_res q =? 0)) (model_pool_reqs pl xs t f)).
+  List.length (filter (fun q => negb (q_res q =? 0)) (model_pool_reqs pl sm xs t f)).
 Proof.
-  intros pl xs. induction xs as [|x r IH]; intros t f; [reflexivity|].
+  intros pl sm xs. induction xs as [|x r IH]; intros t f; [reflexivity|].
   cbn [map pool_run filter model_pool_reqs]. fold (pool_run pl (map model_pool_rq r)).
-  assert (Ex : negb (q_res (set_cum (model_pool_req pl x)
+  assert (Ex : negb (q_res (set_cum (model_pool_req pl sm x)
                  (if pl_cb pl then t + Z.of_nat (List.length (po_records (pool_handle pl true (model_pool_rq x)))) else -1)
                  (if pl_cb pl then f + count_true (po_records (pool_handle pl true (model_pool_rq x))) else -1)) =? 0) =
                presult_failed (po_result (pool_handle pl true (model_pool_rq x)))).
@@ -435,17 +438,17 @@ Proof.
 Qed.
 
 (** the running totals of the model satisfy the per-request clause *)
-Lemma model_pool_reqs_cum : forall pl (xs : list xs_t) t f, pool_ok pl ->
+Lemma model_pool_reqs_cum : forall pl sm (xs : list xs_t) t f, pool_ok pl ->
   (forall x, In x xs -> po_result (pool_handle pl true (model_pool_rq x)) <> PHang) ->
-  prop_cum (pl_cb pl) (model_pool_reqs pl xs t f) t f = true.
+  prop_cum (pl_cb pl) (model_pool_reqs pl sm xs t f) t f = true.
 Proof.
-  intros pl xs. induction xs as [|x r IH]; intros t f Hok Hh; [reflexivity|].
+  intros pl sm xs. induction xs as [|x r IH]; intros t f Hok Hh; [reflexivity|].
   cbn [model_pool_reqs prop_cum].
   assert (Hr : forall y, In y r -> po_result (pool_handle pl true (model_pool_rq y)) <> PHang)
     by (intros y Hy; apply Hh; right; exact Hy).
   destruct (pl_cb pl) eqn:Ecb.
   - rewrite (breaker_records_once pl (model_pool_rq x) Ecb Hok (Hh x (or_introl eq_refl))).
-    assert (Eres : q_res (set_cum (model_pool_req pl x)
+    assert (Eres : q_res (set_cum (model_pool_req pl sm x)
                      (t + Z.of_nat (List.length [presult_failed (po_result (pool_handle pl true (model_pool_rq x)))]))
                      (f + count_true [presult_failed (po_result (pool_handle pl true (model_pool_rq x)))])) =
                    fst (presult_code (po_result (pool_handle pl true (model_pool_rq x)))))
@@ -463,28 +466,28 @@ Proof.
     generalize (t + Z.of_nat (List.length (po_records (pool_handle pl true (model_pool_rq x))))).
     generalize (f + count_true (po_records (pool_handle pl true (model_pool_rq x)))).
     generalize (t + 1).
-    generalize (f + (if q_res (set_cum (model_pool_req pl x) (-1) (-1)) =? 0 then 0 else 1)).
+    generalize (f + (if q_res (set_cum (model_pool_req pl sm x) (-1) (-1)) =? 0 then 0 else 1)).
     induction r as [|y r IHr]; intros a b c0 d; [reflexivity|].
     cbn [model_pool_reqs prop_cum]. rewrite ?Ecb. cbn [andb]. apply IHr.
 Qed.
 
-Theorem prop_pool_sound : forall retry p timeout cb fcodes (xs : list xs_t),
+Theorem prop_pool_sound : forall retry p timeout cb fcodes smax (xs : list xs_t),
   (retry = true -> valid p) ->
-  let c := model_pool_case retry p timeout cb fcodes xs in
+  let c := model_pool_case retry p timeout cb fcodes smax xs in
   (forall x, In x xs -> po_result (pool_handle (pool_of c) true (model_pool_rq x)) <> PHang) ->
   prop_pool c = true.
 Proof.
-  intros retry p timeout cb fcodes xs Hv c Hh.
+  intros retry p timeout cb fcodes smax xs Hv c Hh.
   unfold prop_pool.
   assert (Ek : k_retry c = retry) by reflexivity. assert (Ep : k_pol c = p) by reflexivity.
   destruct (k_retry c && negb (validb (k_pol c))) eqn:E; [reflexivity|].
   assert (Hv' : k_retry c = true -> valid (k_pol c)) by (rewrite Ek, Ep; exact Hv).
   set (pl := pool_of c) in *.
-  assert (Ereqs : k_reqs c = model_pool_reqs pl xs 0 0) by reflexivity.
+  assert (Ereqs : k_reqs c = model_pool_reqs pl smax xs 0 0) by reflexivity.
   assert (Hok : pool_ok pl).
   { unfold pool_ok, pl, pool_of. cbn [pl_retry]. destruct (k_retry c) eqn:Er; [apply Hv'; reflexivity|exact I]. }
   assert (A : forallb (prop_req c) (k_reqs c) = true).
-  { rewrite Ereqs. apply model_pool_reqs_props; assumption. }
+  { rewrite Ereqs. change smax with (k_smax c). apply model_pool_reqs_props; assumption. }
   assert (Ecb : k_cb c = cb) by reflexivity.
   assert (Ecb2 : pl_cb pl = cb) by reflexivity.
   assert (B : prop_cum (k_cb c) (k_reqs c) 0 0 = true).
@@ -497,15 +500,15 @@ Proof.
   { intros rq Hrq. apply in_map_iff in Hrq as [x [<- Hx]]. apply Hh. exact Hx. }
   rewrite Hcbt, Hcbf, T1, T2, Ereqs, model_pool_reqs_length, map_length.
   rewrite Z.eqb_refl. cbn [andb].
-  rewrite (model_pool_reqs_failed pl xs 0 0). apply Z.eqb_refl.
+  rewrite (model_pool_reqs_failed pl smax xs 0 0). apply Z.eqb_refl.
 Qed.
 
 (** with a pool timeout the no-hang hypothesis is automatic *)
-Corollary prop_pool_sound_timeout : forall retry p timeout cb fcodes (xs : list xs_t),
+Corollary prop_pool_sound_timeout : forall retry p timeout cb fcodes smax (xs : list xs_t),
   (retry = true -> valid p) -> 0 < timeout ->
-  prop_pool (model_pool_case retry p timeout cb fcodes xs) = true.
+  prop_pool (model_pool_case retry p timeout cb fcodes smax xs) = true.
 Proof.
-  intros retry p timeout cb fcodes xs Hv Ht. apply prop_pool_sound; [exact Hv|].
+  intros retry p timeout cb fcodes smax xs Hv Ht. apply prop_pool_sound; [exact Hv|].
   intros x Hx. apply timeout_never_hangs.
   - cbn [pool_of model_pool_case k_retry k_pol pl_retry]. destruct retry; [|exact I].
     apply valid_fvalid. apply Hv. reflexivity.
